@@ -231,7 +231,7 @@ fn reduced_alphabet(codec: Codec) -> Vec<char> {
 }
 
 pub fn run(c: &mut Ctx) {
-    c.families(6);
+    c.families(7);
     let mut log = std::fs::File::create(c.logdir.join(format!("b64_{}.jsonl", c.shard))).ok();
 
     // (1) exhaustive: all octet strings of length 0..=2
@@ -310,6 +310,33 @@ pub fn run(c: &mut Ctx) {
             c.sample(json!({"octets": hex(&x[..x.len().min(24)]), "len": x.len(), "base64": base64::encode_string(&x[..x.len().min(24)])}));
         }
         check_octets(c, "octets-rand", idx, &x, &mut rng, &mut log);
+    }
+
+    // (3b) every character up to U+0400, and a stride of the rest, alone and inside an otherwise
+    // well-formed text, through every decoder: a verdict, never a panic, and the reference's verdict
+    let nchars: u64 = 0x400 + (0x11_0000 - 0x400) / 251;
+    for idx in c.cases("chars", nchars) {
+        let cp = if idx < 0x400 { idx as u32 } else { 0x400 + (idx as u32 - 0x400) * 251 };
+        let Some(ch) = char::from_u32(cp) else { continue };
+        let mut rng = c.case_rng("chars", idx);
+        for codec in CODECS {
+            let valid: Vec<char> = codec.ref_enc(&rng.bytes(10)).chars().collect();
+            for place in 0..4 {
+                let mut t = valid.clone();
+                match place {
+                    0 => t = vec![ch],
+                    1 => t.insert(0, ch),
+                    2 => {
+                        let p = rng.below(t.len());
+                        t[p] = ch;
+                    }
+                    _ => t.push(ch),
+                }
+                let text: String = t.into_iter().collect();
+                check_text(c, "chars", idx, codec, &text, &mut rng);
+            }
+        }
+        c.count("characters_swept", 1);
     }
 
     // (4) mutated encodings: padding moved, invalid symbols, truncation, case flips
